@@ -79,4 +79,177 @@ theorem admitted_mem {fn var : String} {k : Int} (h : admitted fn var k = true) 
     exact ⟨ks, hk, h.2, h.1⟩
   · cases h
 
+/-- The admitted values of a guarded index variable (`[]` when there is no guard). -/
+def guardList (fn var : String) : List Nat := (guardOf fn var).getD []
+
+theorem admitted_guardList {fn var : String} {k : Int} (h : admitted fn var k = true) :
+    k.toNat ∈ guardList fn var ∧ 0 ≤ k := by
+  obtain ⟨ks, h1, h2, h3⟩ := admitted_mem h
+  simp [guardList, h1, h2, h3]
+
+/-- Entry `k` of table `c` as the model reads it (`OOB` outside the initialiser). -/
+abbrev ent (c : String) (k : Nat) : String := (tableAt c k).getD OOB
+
+/-- `trait_new`: every admitted `kind` subscripts both tables inside their
+initialisers, at a non-NULL entry that is not a property handler and is the
+handler pair of that `TraitKind`; the entries are assignable. -/
+theorem new_facts : ∀ k ∈ guardList "trait_new" "kind",
+    k < (tableNamed "getattr_handlers").length ∧ k < (tableNamed "setattr_handlers").length ∧
+    ent "getattr_handlers" k ≠ NULL ∧ ent "setattr_handlers" k ≠ NULL ∧
+    requiresProperty (ent "getattr_handlers" k) = false ∧ requiresProperty (ent "setattr_handlers" k) = false ∧
+    kindHandlers[k]? = some (ent "getattr_handlers" k, ent "setattr_handlers" k) ∧
+    ent "getattr_handlers" k ∈ assignable .getattr ∧ ent "setattr_handlers" k ∈ assignable .setattr := by
+  decide
+
+theorem setValidate_facts : ∀ k ∈ guardList "_trait_set_validate" "kind",
+    k < (tableNamed "validate_handlers").length ∧ ent "validate_handlers" k ≠ NULL ∧
+    ent "validate_handlers" k ∈ assignable .validate := by
+  decide
+
+theorem delegate_facts : (∀ k ∈ guardList "_trait_delegate" "prefix_type",
+    k < (tableNamed "delegate_attr_name_handlers").length ∧ ent "delegate_attr_name_handlers" k ≠ NULL ∧
+    ent "delegate_attr_name_handlers" k ∈ assignable .delegateAttrName) ∧
+    0 ∈ guardList "_trait_delegate" "prefix_type" := by
+  decide
+
+theorem setProperty_facts :
+    (∀ k ∈ guardList "_trait_set_property" "get_n",
+      k < (tableNamed "getattr_property_handlers").length ∧ ent "getattr_property_handlers" k ≠ NULL ∧
+      ent "getattr_property_handlers" k ∈ assignable .getattr) ∧
+    (∀ k ∈ guardList "_trait_set_property" "set_n",
+      k < (tableNamed "setattr_property_handlers").length ∧ ent "setattr_property_handlers" k ≠ NULL ∧
+      ent "setattr_property_handlers" k ≠ "setattr_validate_property" ∧
+      ent "setattr_property_handlers" k ∈ assignable .setattr ∧
+      ent "setattr_property_handlers" k ∈ assignable .postSetattr) ∧
+    (∀ k ∈ guardList "_trait_set_property" "validate_n",
+      k < (tableNamed "setattr_validate_handlers").length ∧ ent "setattr_validate_handlers" k ≠ NULL ∧
+      ent "setattr_validate_handlers" k ∈ assignable .validate) ∧
+    "setattr_validate_property" ∈ assignable .setattr := by
+  decide
+
+theorem misc_facts :
+    "post_setattr_trait_python" ∈ assignable .postSetattr ∧ NULL ∈ assignable .postSetattr ∧
+    NULL ∈ assignable .validate ∧ NULL ∈ assignable .delegateAttrName ∧
+    "setattr_validate_property" ≠ NULL ∧ "post_setattr_trait_python" ≠ NULL := by
+  decide
+
+/-! ### Round trip of the index slots -/
+
+theorem tableAt_restore {f : Field} {fn : String} {i : Nat} (h : funcIndex fn (stateTable f) = some i) :
+    tableAt (restoreTableName f) i = some fn := by
+  rw [restore_table_eq f (field_mem_all f)]
+  exact (funcIndex_spec h).2
+
+/-- `__setstate__` of the indices `__getstate__` produced restores the same five pointers. -/
+theorem roundtrip_eq {s t : Fns} {i : Idx} (hg : getstateIdx s = some i) (hs : setstateIdx i = some t) :
+    t = s := by
+  unfold getstateIdx at hg
+  split at hg
+  · rename_i a b c d e ha hb hc hd he
+    cases hg
+    unfold setstateIdx at hs
+    simp only [tableAt_restore ha, tableAt_restore hb, tableAt_restore hc, tableAt_restore hd,
+      tableAt_restore he] at hs
+    cases hs
+    rfl
+  · cases hg
+
+/-! ### Invariant of constructible traits -/
+
+/-- Invariant of constructible traits. -/
+def Good (t : Fns) : Prop :=
+  (∀ f, t.get f ∈ assignable f) ∧ t.getattr ≠ NULL ∧ t.setattr ≠ NULL
+
+theorem good_new {k : Int} {t : Fns} (h : traitNew k = some t) : Good t := by
+  unfold traitNew at h
+  split at h
+  · rename_i hk
+    cases h
+    have hm := (admitted_guardList hk).1
+    obtain ⟨-, -, h3, h4, -, -, -, h8, h9⟩ := new_facts _ hm
+    refine ⟨?_, h3, h4⟩
+    intro f
+    cases f
+    · exact h8
+    · exact h9
+    · exact misc_facts.2.1
+    · exact misc_facts.2.2.1
+    · exact misc_facts.2.2.2.1
+  · cases h
+
+theorem good_step {t t' : Fns} (op : Op) (hg : Good t) (h : apply t op = some t') : Good t' := by
+  obtain ⟨ha, hga, hsa⟩ := hg
+  cases op with
+  | setValidate kind =>
+    simp only [apply] at h
+    split at h
+    · rename_i hk
+      cases h
+      have hm := (admitted_guardList hk).1
+      refine ⟨?_, hga, hsa⟩
+      intro f
+      cases f <;> first | exact (setValidate_facts _ hm).2.2 | exact ha _
+    · cases h
+  | delegate p =>
+    simp only [apply] at h
+    cases h
+    refine ⟨?_, hga, hsa⟩
+    intro f
+    cases f
+    case delegateAttrName =>
+      show ent "delegate_attr_name_handlers" _ ∈ _
+      split
+      · rename_i hk
+        exact (delegate_facts.1 _ (admitted_guardList hk).1).2.2
+      · exact (delegate_facts.1 _ delegate_facts.2).2.2
+    all_goals exact ha _
+  | setProperty g s v hasV =>
+    simp only [apply] at h
+    split at h
+    · rename_i hk
+      simp only [Bool.and_eq_true] at hk
+      obtain ⟨⟨hg', hs'⟩, hv'⟩ := hk
+      have fg := setProperty_facts.1 _ (admitted_guardList hg').1
+      have fs := setProperty_facts.2.1 _ (admitted_guardList hs').1
+      have fv := setProperty_facts.2.2.1 _ (admitted_guardList hv').1
+      cases hasV
+      · simp only [Bool.false_eq_true, ↓reduceIte] at h
+        cases h
+        refine ⟨?_, fg.2.1, fs.2.1⟩
+        intro f
+        cases f
+        · exact fg.2.2
+        · exact fs.2.2.2.1
+        all_goals exact ha _
+      · simp only [↓reduceIte] at h
+        cases h
+        refine ⟨?_, fg.2.1, misc_facts.2.2.2.2.1⟩
+        intro f
+        cases f
+        · exact fg.2.2
+        · exact setProperty_facts.2.2.2
+        · exact fs.2.2.2.2
+        · exact fv.2.2
+        · exact ha _
+    · cases h
+  | setPostSetattr b =>
+    simp only [apply] at h
+    cases h
+    refine ⟨?_, hga, hsa⟩
+    intro f
+    cases f
+    case postSetattr =>
+      show (if b = true then _ else _) ∈ _
+      split
+      · exact misc_facts.1
+      · exact misc_facts.2.1
+    all_goals exact ha _
+
+theorem good_of_constructible {t : Fns} (h : Constructible t) : Good t := by
+  induction h with
+  | new h => exact good_new h
+  | step op _ h ih => exact good_step op ih h
+  | restore _ hg hs ih => rw [roundtrip_eq hg hs]; exact ih
+
+
 end TraitsVerif.Lemmas.CTab
